@@ -109,6 +109,16 @@ func assetsDoc(repo string) (J, error) {
 	}}
 	flowsList = append(flowsList, bcast, hook)
 	a["flows"] = flowsList
+	// query-based groups, re-evaluated by every session against the shared parsed queries: a calendar-day
+	// condition (whose meaning depends on the evaluating session's timezone), a number, a text, a URN
+	// and a location condition
+	a["groups"] = append(a["groups"].([]any),
+		J{"uuid": u("g.day"), "name": "Joined That Day", "query": `joined = "2024-06-15"`},
+		J{"uuid": u("g.after"), "name": "Joined Later", "query": `joined > "2024-06-15" OR created_on < "2020-01-01"`},
+		J{"uuid": u("g.age"), "name": "Adults", "query": `age >= 18 AND gender = "F"`},
+		J{"uuid": u("g.name"), "name": "Contacts", "query": `name ~ "Contact" OR tel ~ "7001"`},
+		J{"uuid": u("g.loc"), "name": "Gasabo", "query": `district = "Gasabo"`},
+	)
 	// two districts of the same name under different states: a lookup by name and parent filters a
 	// shared list of candidates
 	a["locations"] = []any{
@@ -223,11 +233,14 @@ func (t *Thread) Step(i int, sa flows.SessionAssets, eng flows.Engine) {
 			return
 		}
 		cdoc := world.DefaultContact()
+		// an instant that falls on different calendar days in the two contacts' timezones
+		cdoc["fields"] = J{"gender": J{"text": "F"}, "age": J{"text": "30", "number": 30}, "joined": J{"text": "2024-06-15T20:00:00Z", "datetime": "2024-06-15T20:00:00.000000Z"}}
 		if who != "" {
 			// a contact of the thread's own: what is resolved per contact differs between threads
 			cdoc["uuid"] = world.UUID("c09.contact." + who)
 			cdoc["name"] = "Contact " + who
 			cdoc["urns"] = []any{map[string]string{"A": "tel:+12065557001", "B": "tel:+12065557002"}[who]}
+			cdoc["timezone"] = map[string]string{"A": "Asia/Tokyo", "B": "America/Los_Angeles"}[who]
 		}
 		cj, _ := json.Marshal(cdoc)
 		contact, err := flows.ReadContact(sa, cj, assets.IgnoreMissing)
